@@ -253,7 +253,7 @@ VT_REPR = ["STRING", "INT", "BOOL", "FLOAT", "TARG_DEST", "custom"]
 THIRDS = ["", "Some: text + [x] = (y) // z"]
 
 
-def h_kv(s: str, t: str, cs: bool, ro: bool, rep: bool, n: int, m: int, slots: str, vt: str, third: int) -> None:
+def h_kv(s: str, t: str, cs: bool, n: int, m: int, slots: str, vt: str, third: int, ro: bool = False, rep: bool = False) -> None:
     """One keyvalue; two of display name / default / description symbolic (exact lengths n, m), the third a constant."""
     from srctools.fgd import KVDef, ValueTypes
     assume(len(s) == n and len(t) == m)
@@ -270,8 +270,8 @@ def h_kv(s: str, t: str, cs: bool, ro: bool, rep: bool, n: int, m: int, slots: s
     _roundtrip(f, cs, True)
 
 
-def h_kv_witness(s: str, t: str, cs: bool, ro: bool, rep: bool, n: int, m: int, slots: str, vt: str, third: int) -> None:
-    h_kv(s, t, cs, ro, rep, n, m, slots, vt, third)
+def h_kv_witness(s: str, t: str, cs: bool, n: int, m: int, slots: str, vt: str, third: int) -> None:
+    h_kv(s, t, cs, n, m, slots, vt, third)
     raise Fail("reached")
 
 
@@ -284,7 +284,7 @@ def h_kv_types(vt_i: int, cs: bool, ro: bool, rep: bool, shape: int) -> None:
     if not cs:
         assume(not typ.extension)
     f, e = _one_ent()
-    d, dv, ds = [("Name", "", ""), ("", "12", ""), ("", "", "Desc \"q\" \\ t"), ("N: a", "-3", "D + e"), ("N", "some text", "")][shape]
+    d, dv, ds = [("Name", "", ""), ("", "", ""), ("", "12", ""), ("", "", "Desc \"q\" \\ t"), ("N: a", "-3", "D + e"), ("N", "some text", "")][shape]
     if not cs:
         ds = ds.replace('"', "").replace("\\", "")
     _add_kv(e, KVDef("thekey", typ, d, dv, ds, None, ro, rep))
@@ -298,13 +298,10 @@ TAGSETS = [[], ["A"], ["!A"], ["+A", "B"], ["-B", "+C", "D"]]
 FLAG_BITS = [1, 2, 4, 128, 1 << 23, 1 << 31]
 
 
-def h_choices(s: str, v_i: int, tg_i: int, cs: bool, n: int, slot: str) -> None:
+def h_choices(s: str, v_i: int, tg_i: int, cs: bool, n: int, slot: str, pin: bool = False) -> None:
     """choices keyvalue: symbolic label / description, value and tag set by symbolic index."""
     from srctools.fgd import KVDef, ValueTypes
     assume(len(s) == n)
-    assume(0 <= v_i < len(CHOICE_VALUES) and 0 <= tg_i < len(TAGSETS))
-    val = pick(CHOICE_VALUES, v_i)
-    tags = frozenset(pick(TAGSETS, tg_i) if cs else [])
     label, desc = "Label two", "What it does"
     if slot == "label":
         assume(_plain_text(s) and all([c != '\n' for c in s]))
@@ -313,24 +310,31 @@ def h_choices(s: str, v_i: int, tg_i: int, cs: bool, n: int, slot: str) -> None:
         if not cs:
             assume(_plain_text(s))
         desc = s
+    assume(0 <= v_i < len(CHOICE_VALUES) and 0 <= tg_i < len(TAGSETS))
+    if pin:
+        assume(v_i == 6 and tg_i == 3)
+    val = pick(CHOICE_VALUES, v_i)
+    tags = frozenset(pick(TAGSETS, tg_i) if cs else [])
     f, e = _one_ent("NPC")
     _add_kv(e, KVDef("mode", ValueTypes.CHOICES, "Mode", "0", desc,
                      [("0", "First", frozenset()), (val, label, tags), ("zz", "Last", frozenset())]))
     _roundtrip(f, cs, True)
 
 
-def h_flags(s: str, b_i: int, tg_i: int, cs: bool, ls: bool, dflt: bool, n: int) -> None:
+def h_flags(s: str, b_i: int, tg_i: int, cs: bool, ls: bool, dflt: bool, n: int, pin: bool = False) -> None:
     """spawnflags keyvalue: symbolic label, bit / tag set by symbolic index, default bit and label_spawnflags symbolic."""
     from srctools.fgd import KVDef, ValueTypes
     assume(len(s) == n)
-    assume(0 <= b_i < len(FLAG_BITS) and 0 <= tg_i < len(TAGSETS))
-    bit = pick(FLAG_BITS, b_i)
-    tags = frozenset(pick(TAGSETS, tg_i) if cs else [])
     if not cs:
         assume(_plain_text(s))
     assume(all([c != '\n' for c in s]))
     if n:
         assume(s[0] != '[' and not s[0].isspace())
+    assume(0 <= b_i < len(FLAG_BITS) and 0 <= tg_i < len(TAGSETS))
+    if pin:
+        assume(b_i == 4 and tg_i == 3)
+    bit = pick(FLAG_BITS, b_i)
+    tags = frozenset(pick(TAGSETS, tg_i) if cs else [])
     f, e = _one_ent("BRUSH")
     _add_kv(e, KVDef("spawnflags", ValueTypes.SPAWNFLAGS, "spawnflags", "", "",
                      [(8, "Eight", True, frozenset()), (bit, s, dflt, tags), (16, "Sixteen", False, frozenset())]))
@@ -383,10 +387,12 @@ def _full(kind_name, slot, s, tg):
     return f
 
 
-def h_full(s: str, k_i: int, tg_i: int, ls: bool, n: int, slot: str, joined: bool = False) -> None:
+def h_full(s: str, k_i: int, tg_i: int, ls: bool, n: int, slot: str, joined: bool = False, pin: bool = False) -> None:
     """Full skeleton, custom syntax on; one symbolic leaf; entity kind and tag set by symbolic index."""
     assume(len(s) == n)
     assume(0 <= k_i < len(KINDS) and 0 <= tg_i < len(TAGSETS))
+    if pin:
+        assume(k_i == 1 and tg_i == 3)
     kind = pick(KINDS, k_i)
     tg = pick(TAGSETS, tg_i)
     f = _full(kind, slot, s, tg)
@@ -394,17 +400,19 @@ def h_full(s: str, k_i: int, tg_i: int, ls: bool, n: int, slot: str, joined: boo
     # the alias: is_alias is exported as base(); documented: aliasof() is the parser's spelling.  Checked as bases only.
 
 
-def h_full_witness(s: str, k_i: int, tg_i: int, ls: bool, n: int, slot: str, joined: bool = False) -> None:
-    h_full(s, k_i, tg_i, ls, n, slot, joined)
+def h_full_witness(s: str, k_i: int, tg_i: int, ls: bool, n: int, slot: str, joined: bool = False, pin: bool = False) -> None:
+    h_full(s, k_i, tg_i, ls, n, slot, joined, pin)
     raise Fail("reached")
 
 
-def h_plain(s: str, k_i: int, ls: bool, n: int, slot: str) -> None:
+def h_plain(s: str, k_i: int, ls: bool, n: int, slot: str, pin: bool = False) -> None:
     """custom_syntax=False on an untagged skeleton (legacy escaping region: no quote / backslash in the symbolic text)."""
     from srctools.fgd import (FGD, EntityDef, EntityTypes, KVDef, IODef, ValueTypes, HelperTypes, HELPER_IMPL)
     assume(len(s) == n)
     assume(_plain_text(s))
     assume(0 <= k_i < len(KINDS))
+    if pin:
+        assume(k_i == 2)
     kind = pick(KINDS, k_i)
     f, e = _one_ent(kind, "plain_ent")
     e.desc = s if slot == "ent_desc" else "Desc"
@@ -735,7 +743,7 @@ def obligations(tier):
                     bound="two symbolic slots with exact lengths per slice, third slot '' or a punctuation-rich constant"))
     obls.append(Obl("kv.text.witness", MOD, "h_kv_witness", witness=True, budget_s=200, per_path_s=40,
                     slices=[{"n": 1, "m": 1, "slots": p, "vt": "STRING", "third": 1} for p in pairs], desc="reachability twin"))
-    obls.append(Obl("kv.types", MOD, "h_kv_types", slices=[{"shape": i} for i in range(5)], budget_s=600, per_path_s=40,
+    obls.append(Obl("kv.types", MOD, "h_kv_types", slices=[{"shape": i} for i in range(6)], budget_s=600, per_path_s=40,
                     desc="every ValueTypes member as keyvalue / input / output type (I/O decay table)",
                     bound="type by symbolic index (enumeration in solver clothing)"))
     # --- choices / flags
